@@ -9,7 +9,7 @@ LHS = ['class', 'def', 'lambda', 'import', 'None', 'True', 'not_', 'is', 'in', '
        '[', ']', '[]', '[1', '{', '}', '{}', '{1', '[[', 'a[0]', 'a(b)', 'f()', '()', '(,)', '1,', ',',
        "'a", 'a"', "'''", '"""', "'\\'", 'b"x"', "r'x'", 'f"x"', "u'x'", '0x', '0o8', '1e', '1_0', '1__0', '0b2', '1j',
        'a b'.replace(' ', ' '), 'é', 'a.é', '$', '@x', '!x', 'a=b', 'a==b', 'a;b', 'a#b', '#', '\\', 'a\\b', '`',
-       'roles', 'roles.0', 'roles.x', 'a', 'a.b', 'a.b.c', 'a.b.c.d', 'b.a', 'c', 'user_id', 'nested.roles']
+       '{[]}', '{{}}', '{1,[2]}', '[{[]}]', '{(1,[])}', '{[1]}', '({[]},)', '{[],1}', 'roles', 'roles.0', 'roles.x', 'a', 'a.b', 'a.b.c', 'a.b.c.d', 'b.a', 'c', 'user_id', 'nested.roles']
 RHS = ['x', '7', 'True', 'None', '', '%(k)s', '%(missing)s', 'pre%(k)s', '%(k)s%(n)s', '%%', '%%(k)s', "'x'", '[1, 2]', 'a:b', ':']
 JSONV = [None, True, False, 0, 1, -1, 2.5, '', 'x', 's', [], [1], ['x'], [['x']], [[['x']]], {}, {'b': 'c'}, {'b': None},
          {'b': [1, 'c']}, {'b': {'c': 'x'}}, [{'b': 'c'}], [[{'b': 'c'}]], [None], [{'b': [{'c': {'d': 'x'}}]}], {'0': 'x'}]
